@@ -202,6 +202,30 @@ def cond_facts(fn, cond, label):
     return []
 
 
+SENTINEL = 1 << 62
+
+
+def sentinel_infeasible(fn, cond, label, facts):
+    """Refinement R2: `x < v` (or `x <= v`) cannot be false when v is known to hold a
+    sentinel constant >= 2^62 (idiom: chunk_sample_id = INT64_MAX - INT32_MAX to force the
+    following compare).  Sample ids / offsets never reach 2^62."""
+    if cond is None or label not in ('T', 'F'):
+        return False
+    e = strip_casts(cond)
+    if e.get('op') != 'bin' or e['o'] not in ('<', '<=', '>', '>='):
+        return False
+    l, r = strip_casts(e['k'][0]), strip_casts(e['k'][1])
+    o = e['o']
+    big = None
+    for (v, k, c) in facts:
+        if k == 'eq' and isinstance(c, int) and c >= SENTINEL:
+            if _var_key(fn, r) == v and o in ('<', '<='):
+                big = 'F'          # x < BIG is never false
+            if _var_key(fn, l) == v and o in ('>', '>='):
+                big = 'F'
+    return big is not None and label == big
+
+
 def _contradicts(facts, new):
     for var, kind, c in new:
         for (v2, k2, c2) in facts:
@@ -313,6 +337,8 @@ def find_path(fn, start, on_event, refine=True, start_facts=frozenset(), on_exit
             if edge_ok is not None and not edge_ok(b, s, label):
                 continue
             f2 = facts
+            if refine and label in ('T', 'F') and sentinel_infeasible(fn, b.cond, label, facts):
+                continue
             if refine and label in ('T', 'F'):
                 new = cond_facts(fn, b.cond, label)
                 if new:
